@@ -207,3 +207,42 @@ def alias_programs(seed, n):
             calls.append({'src': '\n'.join(['push(%s, 4)' % r.choice(roots), 'y = x', 'push(y, 1)', '[x, y, h]']), 'n': 0, 'max': 200})
         out.append({'names': [names], 'host': {}, 'calls': calls})
     return out
+
+
+NONMUT = ['len', 'str', 'keys', 'values', 'items', 'sum', 'min', 'max', 'sorted', 'reversed', 'enumerate', 'pretty', 'join', 'list', 'lower',
+          'upper', 'strip', 'abs', 'int', 'round', 'floor', 'ceil', 'dict', 'split', 'get', 'index_of', 'startswith', 'endswith', 'replace',
+          'map', 'filter', 'reduce', 'shuffle', 'rand', 'match', 'match_all', 'match_groups', 'float', '__getitem__']
+
+
+def nonmutator_calls(seed, n):
+    """Every non-mutator (incl. the relational ones: shuffle, rand, match*) applied to random nested host
+    arguments, with key functions and flags, alone and in pipelines; the arguments are host objects so that
+    the end-of-call comparison of names sees any modification."""
+    r = random.Random(seed)
+    out = []
+    for i in range(n):
+        names = {'a': [nested_value(r, 1) for _ in range(r.randrange(0, 5))],
+                 'b': r.choice([[3, 1, 2], [Decimal(2), Decimal(1), Decimal(3), Decimal(1)], ['b', 'a', 'c'], [[2], [1]], [], [1]]),
+                 'd': {k: nested_value(r, 1) for k in r.sample(['x', 'y', 'z', '1'], r.randrange(0, 4))},
+                 's': r.choice(['b a c', '', 'Hello', 'a,b,,c']), 'n': r.choice([2, Decimal('2.5'), -1]),
+                 'nn': [[3, 1], [2]], 'm': {'k': [2, 1]}}
+        args = ['a', 'b', 'd', 's', 'n', 'nn', 'm', 'm["k"]', 'nn[0]', 'None', 'True', 'v => 0 - v', 'v => v', '(p, q) => q', 'v => len(v)', '"a"', '" "', '0', '1',
+                'v => b', '(p, q) => p + q', 'v => str(v)']
+        def call(depth):
+            f = r.choice(NONMUT)
+            k = r.choice([1, 1, 2, 2, 3])
+            xs = []
+            for j in range(k):
+                if depth > 0 and j == 0 and r.random() < 0.4:
+                    xs.append(call(depth - 1))
+                else:
+                    xs.append(r.choice(args[:9] if j == 0 and r.random() < 0.8 else args))
+            form = r.randrange(3)
+            if form == 0 or len(xs) == 0 or '=>' in xs[0]:
+                return '%s(%s)' % (f, ', '.join(xs))
+            if form == 1 and not xs[0].startswith('(') :
+                return '(%s | %s(%s))' % (xs[0], f, ', '.join(xs[1:])) if len(xs) > 1 else '(%s | %s)' % (xs[0], f)
+            return '%s(%s)' % (f, ', '.join(xs))
+        lines = [call(2) for _ in range(r.randrange(1, 4))]
+        out.append({'names': [names], 'host': {}, 'calls': [{'src': '\n'.join(lines), 'n': 0, 'max': 600}]})
+    return out
